@@ -2325,9 +2325,9 @@ if hasattr(_psplatform, "sensors_temperatures"):
                 high = convert(high)
                 critical = convert(critical)
 
-                if high and not critical:
+                if high is not None and critical is None:
                     critical = high
-                elif critical and not high:
+                elif critical is not None and high is None:
                     high = critical
 
                 ret[name].append(
